@@ -67,7 +67,7 @@ func selfTestImpl(prop, repo string) interface{} {
 		detail  string
 	}
 	res := make([]outcome, len(vs))
-	sem := make(chan struct{}, 12)
+	sem := make(chan struct{}, 16)
 	var wg sync.WaitGroup
 	for i, v := range vs {
 		wg.Add(1)
@@ -95,7 +95,26 @@ func selfTestImpl(prop, repo string) interface{} {
 					os.WriteFile(filepath.Join(src, n), b, 0o644)
 				}
 			}
-			ap := exec.Command("patch", "-p1", "-s", "-f", "-d", src, "-i", v.Patch)
+			// only the non-test files of the root package are analysed: the parts of the patch that touch tests or other
+			// directories are left out
+			patchFile := v.Patch
+			if pb, err := os.ReadFile(v.Patch); err == nil {
+				var keep []string
+				on := true
+				for _, l := range strings.SplitAfter(string(pb), "\n") {
+					if strings.HasPrefix(l, "diff --git ") {
+						f := strings.Fields(l)
+						name := strings.TrimPrefix(f[len(f)-1], "b/")
+						on = !strings.HasSuffix(name, "_test.go") && !strings.Contains(name, "/") && strings.HasSuffix(name, ".go")
+					}
+					if on {
+						keep = append(keep, l)
+					}
+				}
+				patchFile = filepath.Join(tmp, "variant.diff")
+				os.WriteFile(patchFile, []byte(strings.Join(keep, "")), 0o644)
+			}
+			ap := exec.Command("patch", "-p1", "-s", "-f", "-d", src, "-i", patchFile)
 			if out, err := ap.CombinedOutput(); err != nil {
 				o.detail = "patch does not apply to the current tree: " + firstLine(string(out))
 				res[i] = o
